@@ -179,176 +179,185 @@ end Bartiq
 namespace Bartiq
 open Tok
 
+/-- fuel (= recursion depth) that suffices for a phrase of kind `k` with `n` tokens is `6 * n + cK k` -/
+def cK : K → Nat
+  | .atom => 0 | .power => 1 | .factor => 2 | .termTail _ => 1 | .term => 3 | .exprTail _ => 1 | .expr => 4
+def cKA : KA → Nat
+  | .argsTail _ => 1 | .args => 5
+
+macro "fuel_bound" : tactic =>
+  `(tactic| (simp only [cK, cKA, List.length_append, List.length_cons, List.length_nil, List.length_singleton] at *; omega))
+
 theorem fuel_succ {f f0 : Nat} (h : f0 + 1 ≤ f) : ∃ g, f = g + 1 ∧ f0 ≤ g := ⟨f - 1, by omega, by omega⟩
 
 mutual
 /-- completeness: a phrase of the grammar followed by an admissible rest is parsed to its tree, leaving the rest,
     for every sufficiently large fuel -/
 theorem complete : ∀ {k ts t}, G k ts t → ∀ rest, follow k rest.head? →
-    ∃ f0, ∀ f, f0 ≤ f → run k f (ts ++ rest) = some (t, rest)
+    ∃ f0, f0 ≤ 6 * ts.length + cK k ∧ ∀ f, f0 ≤ f → run k f (ts ++ rest) = some (t, rest)
   | _, _, _, .expr (xs := xs) (ys := ys) h1 h2, rest, hf => by
-    obtain ⟨f1, e1⟩ := complete h1 (ys ++ rest) (exprTail_head h2 rest hf)
-    obtain ⟨f2, e2⟩ := complete h2 rest hf
-    refine ⟨max f1 f2 + 1, fun f hle => ?_⟩
+    obtain ⟨f1, b1, e1⟩ := complete h1 (ys ++ rest) (exprTail_head h2 rest hf)
+    obtain ⟨f2, b2, e2⟩ := complete h2 rest hf
+    refine ⟨max f1 f2 + 1, by fuel_bound, fun f hle => ?_⟩
     obtain ⟨g, rfl, hg⟩ := fuel_succ hle
     have a1 := e1 g (by omega); have a2 := e2 g (by omega)
     simp only [run] at a1 a2 ⊢
     simp [pExpr, List.append_assoc, a1, a2]
   | _, _, _, .etNil, rest, hf => by
-    refine ⟨1, fun f hle => ?_⟩
+    refine ⟨1, by fuel_bound, fun f hle => ?_⟩
     obtain ⟨g, rfl, _⟩ := fuel_succ hle
     simp only [run, List.nil_append]
     exact pExprTail_stop hf
   | _, _, _, .etPlus (ys := ys) (zs := zs) h1 h2, rest, hf => by
-    obtain ⟨f1, e1⟩ := complete h1 (zs ++ rest) (exprTail_head h2 rest hf)
-    obtain ⟨f2, e2⟩ := complete h2 rest hf
-    refine ⟨max f1 f2 + 1, fun f hle => ?_⟩
+    obtain ⟨f1, b1, e1⟩ := complete h1 (zs ++ rest) (exprTail_head h2 rest hf)
+    obtain ⟨f2, b2, e2⟩ := complete h2 rest hf
+    refine ⟨max f1 f2 + 1, by fuel_bound, fun f hle => ?_⟩
     obtain ⟨g, rfl, hg⟩ := fuel_succ hle
     have a1 := e1 g (by omega); have a2 := e2 g (by omega)
     simp only [run] at a1 a2 ⊢
     simp [pExprTail, List.append_assoc, a1, a2]
   | _, _, _, .etMinus (ys := ys) (zs := zs) h1 h2, rest, hf => by
-    obtain ⟨f1, e1⟩ := complete h1 (zs ++ rest) (exprTail_head h2 rest hf)
-    obtain ⟨f2, e2⟩ := complete h2 rest hf
-    refine ⟨max f1 f2 + 1, fun f hle => ?_⟩
+    obtain ⟨f1, b1, e1⟩ := complete h1 (zs ++ rest) (exprTail_head h2 rest hf)
+    obtain ⟨f2, b2, e2⟩ := complete h2 rest hf
+    refine ⟨max f1 f2 + 1, by fuel_bound, fun f hle => ?_⟩
     obtain ⟨g, rfl, hg⟩ := fuel_succ hle
     have a1 := e1 g (by omega); have a2 := e2 g (by omega)
     simp only [run] at a1 a2 ⊢
     simp [pExprTail, List.append_assoc, a1, a2]
   | _, _, _, .term (xs := xs) (ys := ys) h1 h2, rest, hf => by
-    obtain ⟨f1, e1⟩ := complete h1 (ys ++ rest) (termTail_head h2 rest hf)
-    obtain ⟨f2, e2⟩ := complete h2 rest hf
-    refine ⟨max f1 f2 + 1, fun f hle => ?_⟩
+    obtain ⟨f1, b1, e1⟩ := complete h1 (ys ++ rest) (termTail_head h2 rest hf)
+    obtain ⟨f2, b2, e2⟩ := complete h2 rest hf
+    refine ⟨max f1 f2 + 1, by fuel_bound, fun f hle => ?_⟩
     obtain ⟨g, rfl, hg⟩ := fuel_succ hle
     have a1 := e1 g (by omega); have a2 := e2 g (by omega)
     simp only [run] at a1 a2 ⊢
     simp [pTerm, List.append_assoc, a1, a2]
   | _, _, _, .ttNil, rest, hf => by
-    refine ⟨1, fun f hle => ?_⟩
+    refine ⟨1, by fuel_bound, fun f hle => ?_⟩
     obtain ⟨g, rfl, _⟩ := fuel_succ hle
     simp only [run, List.nil_append]
     exact pTermTail_stop hf
   | _, _, _, .ttStar (ys := ys) (zs := zs) h1 h2, rest, hf => by
-    obtain ⟨f1, e1⟩ := complete h1 (zs ++ rest) (termTail_head h2 rest hf)
-    obtain ⟨f2, e2⟩ := complete h2 rest hf
-    refine ⟨max f1 f2 + 1, fun f hle => ?_⟩
+    obtain ⟨f1, b1, e1⟩ := complete h1 (zs ++ rest) (termTail_head h2 rest hf)
+    obtain ⟨f2, b2, e2⟩ := complete h2 rest hf
+    refine ⟨max f1 f2 + 1, by fuel_bound, fun f hle => ?_⟩
     obtain ⟨g, rfl, hg⟩ := fuel_succ hle
     have a1 := e1 g (by omega); have a2 := e2 g (by omega)
     simp only [run] at a1 a2 ⊢
     simp [pTermTail, List.append_assoc, a1, a2]
   | _, _, _, .ttSlash (ys := ys) (zs := zs) h1 h2, rest, hf => by
-    obtain ⟨f1, e1⟩ := complete h1 (zs ++ rest) (termTail_head h2 rest hf)
-    obtain ⟨f2, e2⟩ := complete h2 rest hf
-    refine ⟨max f1 f2 + 1, fun f hle => ?_⟩
+    obtain ⟨f1, b1, e1⟩ := complete h1 (zs ++ rest) (termTail_head h2 rest hf)
+    obtain ⟨f2, b2, e2⟩ := complete h2 rest hf
+    refine ⟨max f1 f2 + 1, by fuel_bound, fun f hle => ?_⟩
     obtain ⟨g, rfl, hg⟩ := fuel_succ hle
     have a1 := e1 g (by omega); have a2 := e2 g (by omega)
     simp only [run] at a1 a2 ⊢
     simp [pTermTail, List.append_assoc, a1, a2]
   | _, _, _, .ttDslash (ys := ys) (zs := zs) h1 h2, rest, hf => by
-    obtain ⟨f1, e1⟩ := complete h1 (zs ++ rest) (termTail_head h2 rest hf)
-    obtain ⟨f2, e2⟩ := complete h2 rest hf
-    refine ⟨max f1 f2 + 1, fun f hle => ?_⟩
+    obtain ⟨f1, b1, e1⟩ := complete h1 (zs ++ rest) (termTail_head h2 rest hf)
+    obtain ⟨f2, b2, e2⟩ := complete h2 rest hf
+    refine ⟨max f1 f2 + 1, by fuel_bound, fun f hle => ?_⟩
     obtain ⟨g, rfl, hg⟩ := fuel_succ hle
     have a1 := e1 g (by omega); have a2 := e2 g (by omega)
     simp only [run] at a1 a2 ⊢
     simp [pTermTail, List.append_assoc, a1, a2]
   | _, _, _, .ttPercent (ys := ys) (zs := zs) h1 h2, rest, hf => by
-    obtain ⟨f1, e1⟩ := complete h1 (zs ++ rest) (termTail_head h2 rest hf)
-    obtain ⟨f2, e2⟩ := complete h2 rest hf
-    refine ⟨max f1 f2 + 1, fun f hle => ?_⟩
+    obtain ⟨f1, b1, e1⟩ := complete h1 (zs ++ rest) (termTail_head h2 rest hf)
+    obtain ⟨f2, b2, e2⟩ := complete h2 rest hf
+    refine ⟨max f1 f2 + 1, by fuel_bound, fun f hle => ?_⟩
     obtain ⟨g, rfl, hg⟩ := fuel_succ hle
     have a1 := e1 g (by omega); have a2 := e2 g (by omega)
     simp only [run] at a1 a2 ⊢
     simp [pTermTail, List.append_assoc, a1, a2]
   | _, _, _, .fNeg h1, rest, hf => by
-    obtain ⟨f1, e1⟩ := complete h1 rest hf
-    refine ⟨f1 + 1, fun f hle => ?_⟩
+    obtain ⟨f1, b1, e1⟩ := complete h1 rest hf
+    refine ⟨f1 + 1, by fuel_bound, fun f hle => ?_⟩
     obtain ⟨g, rfl, hg⟩ := fuel_succ hle
     have a1 := e1 g hg
     simp only [run] at a1 ⊢
     simp [pFactor, a1]
   | _, _, _, .fPos h1, rest, hf => by
-    obtain ⟨f1, e1⟩ := complete h1 rest hf
-    refine ⟨f1 + 1, fun f hle => ?_⟩
+    obtain ⟨f1, b1, e1⟩ := complete h1 rest hf
+    refine ⟨f1 + 1, by fuel_bound, fun f hle => ?_⟩
     obtain ⟨g, rfl, hg⟩ := fuel_succ hle
     have a1 := e1 g hg
     simp only [run] at a1 ⊢
     simp [pFactor, a1]
   | _, _, _, .fPow h1, rest, hf => by
-    obtain ⟨f1, e1⟩ := complete h1 rest hf
-    refine ⟨f1 + 1, fun f hle => ?_⟩
+    obtain ⟨f1, b1, e1⟩ := complete h1 rest hf
+    refine ⟨f1 + 1, by fuel_bound, fun f hle => ?_⟩
     obtain ⟨g, rfl, hg⟩ := fuel_succ hle
     have a1 := e1 g hg
     simp only [run] at a1 ⊢
     rw [pFactor_of_startsAtom (power_starts h1 rest)]; exact a1
   | _, _, _, .pAtom h1, rest, hf => by
-    obtain ⟨f1, e1⟩ := complete h1 rest (Or.inl hf)
-    refine ⟨f1 + 1, fun f hle => ?_⟩
+    obtain ⟨f1, b1, e1⟩ := complete h1 rest (Or.inl hf)
+    refine ⟨f1 + 1, by fuel_bound, fun f hle => ?_⟩
     obtain ⟨g, rfl, hg⟩ := fuel_succ hle
     have a1 := e1 g hg
     simp only [run] at a1 ⊢
     exact pPower_noPow a1 hf
   | _, _, _, .pPow (xs := xs) (ys := ys) h1 h2, rest, hf => by
-    obtain ⟨f1, e1⟩ := complete h1 (pow :: ys ++ rest) (Or.inr rfl)
-    obtain ⟨f2, e2⟩ := complete h2 rest hf
-    refine ⟨max f1 f2 + 1, fun f hle => ?_⟩
+    obtain ⟨f1, b1, e1⟩ := complete h1 (pow :: ys ++ rest) (Or.inr rfl)
+    obtain ⟨f2, b2, e2⟩ := complete h2 rest hf
+    refine ⟨max f1 f2 + 1, by fuel_bound, fun f hle => ?_⟩
     obtain ⟨g, rfl, hg⟩ := fuel_succ hle
     have a1 := e1 g (by omega); have a2 := e2 g (by omega)
     simp only [run] at a1 a2 ⊢
     simp only [List.append_assoc, List.cons_append] at a1 ⊢
     simp [pPower, a1, a2]
   | _, _, _, .aNum, rest, _ => by
-    refine ⟨1, fun f hle => ?_⟩
+    refine ⟨1, by fuel_bound, fun f hle => ?_⟩
     obtain ⟨g, rfl, _⟩ := fuel_succ hle
     simp [run, pAtom]
   | _, _, _, .aName, rest, hf => by
-    refine ⟨1, fun f hle => ?_⟩
+    refine ⟨1, by fuel_bound, fun f hle => ?_⟩
     obtain ⟨g, rfl, _⟩ := fuel_succ hle
     simp only [run, List.singleton_append]
     exact pAtom_name hf
   | _, _, _, .aParen (xs := xs) h1, rest, _ => by
-    obtain ⟨f1, e1⟩ := complete h1 (rp :: rest) (by simp [follow, afterExpr])
-    refine ⟨f1 + 1, fun f hle => ?_⟩
+    obtain ⟨f1, b1, e1⟩ := complete h1 (rp :: rest) (by simp [follow, afterExpr])
+    refine ⟨f1 + 1, by fuel_bound, fun f hle => ?_⟩
     obtain ⟨g, rfl, hg⟩ := fuel_succ hle
     have a1 := e1 g hg
     simp only [run] at a1 ⊢
     simp only [List.cons_append, List.append_assoc, List.singleton_append] at a1 ⊢
     simp [pAtom, a1]
   | _, _, _, .aCall (xs := xs) h1, rest, _ => by
-    obtain ⟨f1, e1⟩ := completeA h1 rest
-    refine ⟨f1 + 1, fun f hle => ?_⟩
+    obtain ⟨f1, b1, e1⟩ := completeA h1 rest
+    refine ⟨f1 + 1, by fuel_bound, fun f hle => ?_⟩
     obtain ⟨g, rfl, hg⟩ := fuel_succ hle
     have a1 := e1 g hg
     simp only [runA] at a1
     simp only [run, List.cons_append]
     simp [pAtom, a1]
 theorem completeA : ∀ {k ts l}, GA k ts l → ∀ rest,
-    ∃ f0, ∀ f, f0 ≤ f → runA k f (ts ++ rest) = some (l, rest)
+    ∃ f0, f0 ≤ 6 * ts.length + cKA k ∧ ∀ f, f0 ≤ f → runA k f (ts ++ rest) = some (l, rest)
   | _, _, _, .argsNil, rest => by
-    refine ⟨1, fun f hle => ?_⟩
+    refine ⟨1, by fuel_bound, fun f hle => ?_⟩
     obtain ⟨g, rfl, _⟩ := fuel_succ hle
     simp [runA, pArgs]
   | _, _, _, .argsCons (xs := xs) (ys := ys) h1 h2, rest => by
     have hys : afterExpr (ys ++ rest).head? := by
       cases h2 <;> simp [afterExpr]
-    obtain ⟨f1, e1⟩ := complete h1 (ys ++ rest) hys
-    obtain ⟨f2, e2⟩ := completeA h2 rest
-    refine ⟨max f1 f2 + 1, fun f hle => ?_⟩
+    obtain ⟨f1, b1, e1⟩ := complete h1 (ys ++ rest) hys
+    obtain ⟨f2, b2, e2⟩ := completeA h2 rest
+    refine ⟨max f1 f2 + 1, by fuel_bound, fun f hle => ?_⟩
     obtain ⟨g, rfl, hg⟩ := fuel_succ hle
     have a1 := e1 g (by omega); have a2 := e2 g (by omega)
     simp only [run, runA] at a1 a2 ⊢
     rw [List.append_assoc, pArgs_of_startsFactor (expr_starts h1 _) a1]
     exact a2
   | _, _, _, .atEnd, rest => by
-    refine ⟨1, fun f hle => ?_⟩
+    refine ⟨1, by fuel_bound, fun f hle => ?_⟩
     obtain ⟨g, rfl, _⟩ := fuel_succ hle
     simp [runA, pArgsTail]
   | _, _, _, .atComma (xs := xs) (ys := ys) h1 h2, rest => by
     have hys : afterExpr (ys ++ rest).head? := by
       cases h2 <;> simp [afterExpr]
-    obtain ⟨f1, e1⟩ := complete h1 (ys ++ rest) hys
-    obtain ⟨f2, e2⟩ := completeA h2 rest
-    refine ⟨max f1 f2 + 1, fun f hle => ?_⟩
+    obtain ⟨f1, b1, e1⟩ := complete h1 (ys ++ rest) hys
+    obtain ⟨f2, b2, e2⟩ := completeA h2 rest
+    refine ⟨max f1 f2 + 1, by fuel_bound, fun f hle => ?_⟩
     obtain ⟨g, rfl, hg⟩ := fuel_succ hle
     have a1 := e1 g (by omega); have a2 := e2 g (by omega)
     simp only [run, runA] at a1 a2 ⊢
@@ -356,17 +365,22 @@ theorem completeA : ∀ {k ts l}, GA k ts l → ∀ rest,
     simp [pArgsTail, a1, a2]
 end
 
-/-- **the parser computes the standard reading** of every token string of the grammar -/
-theorem parser_is_standard_reading {ts t} (h : Reads ts t) : ∃ f0, ∀ f, f0 ≤ f → pExpr f ts = some (t, []) := by
+/-- **the parser computes the standard reading** of every token string of the grammar, with an explicit fuel bound -/
+theorem parser_is_standard_reading {ts t} (h : Reads ts t) :
+    ∃ f0, f0 ≤ 6 * ts.length + 4 ∧ ∀ f, f0 ≤ f → pExpr f ts = some (t, []) := by
   have := complete h [] (by simp [follow, afterExpr])
-  simpa [run] using this
+  simpa [run, cK] using this
+
+/-- … in particular with the fuel `parseToks` actually uses: the executable entry point reads every phrase of the grammar -/
+theorem parseToks_complete {ts t} (h : Reads ts t) : parseToks ts = some t := by
+  obtain ⟨f0, hb, e⟩ := parser_is_standard_reading h
+  unfold parseToks
+  rw [e (6 * ts.length + 10) (by omega)]
 
 /-- the standard reading is unique (the grammar is unambiguous) -/
 theorem reading_unique {ts t t'} (h : Reads ts t) (h' : Reads ts t') : t = t' := by
-  obtain ⟨f0, e⟩ := parser_is_standard_reading h
-  obtain ⟨f0', e'⟩ := parser_is_standard_reading h'
-  have a := e (max f0 f0') (by omega)
-  have a' := e' (max f0 f0') (by omega)
+  have a := parseToks_complete h
+  have a' := parseToks_complete h'
   rw [a] at a'
   simpa using a'
 
